@@ -38,7 +38,7 @@ TRUSTED = [
     "C11: OSError(errno) raised by the injected os.readlink/os.listdir is what the kernel call would raise for that errno (Python's errno -> exception-class mapping is exercised for real); a Python without IPv6 is emulated by socket.inet_ntop raising ValueError for AF_INET6 and socket.has_ipv6 = False",
 ]
 MANIFEST = {
-    "level_text": "Machine-checked Lean 4 proofs over a transcription of _pslinux.NetConnections (decode_address, process_inet, process_unix, get_proc_inodes, get_all_inodes, retrieve), wrap_exceptions around Process.net_connections and the front-end kind check: address round-trip for EVERY IPv4/IPv6 address and port on both endiannesses against the kernel's %08X-per-host-order-word rendering (C11_addr_roundtrip_v4/v6, C11_port_zero_empty), the 11-state status map and both kind tables by `decide` over the translator-generated tables (C11_status_map, C11_kind_table, C11_kind_files), unknown kind -> ValueError, exact parsing of every rendered tcp/udp/unix line incl. UNIX names with blanks and carriage returns (C11_inet_line, C11_unix_line, C11_unix_name_with_cr), owner lookup for every descriptor table (C11_owner), the resulting rows/per-process statements (C11_rows_exact, C11_per_process_only_own) and their NUMBER incl. any number of sockets sharing inode 0 (C11_rows_count, C11_rows_count_inode0); with every errno outcome of os.listdir/os.readlink explicit: a descriptor or process that cannot be inspected (ENOENT, ESRCH, EINVAL, ENAMETOOLONG, EACCES, EPERM) contributes no holder and never fails the system-wide call (C11_scan_never_fails, C11_scan_no_holder, C11_scan_process, C11_scan_process_error), other errnos propagate (proved: C11_scan_fatal_errno_propagates); on a Python that cannot format IPv6 addresses the rows needing an IPv6 text are left out and IPv4/UNIX rows are unaffected (C11_noipv6_rows, C11_noipv6_left_out, C11_noipv6_v4_unix_unaffected); proved counterexamples for the two pre-fix behaviours (UNIX path with a blank, UNIX socket shared by two processes). Tied to the code by translator facts (both kind tables, TCP_STATUSES, family/type constants, endianness, tuple-unpack indices, the path expression and the inode-merge statement) feeding cfg_good, and by a differential run of the real front-end functions over a fake procfs with per-path fault injection into os.readlink/os.listdir, a patched socket.inet_ntop/has_ipv6, and every query made in several call modes (plain, oneshot fresh/warm, as_dict, process_iter object, second call, deprecated alias; system-wide while oneshot blocks are open).",
+    "level_text": "Machine-checked Lean 4 proofs over a transcription of _pslinux.NetConnections (decode_address, process_inet, process_unix, get_proc_inodes, get_all_inodes, retrieve), wrap_exceptions around Process.net_connections and the front-end kind check: address round-trip for EVERY IPv4/IPv6 address and port on both endiannesses against the kernel's %08X-per-host-order-word rendering (C11_addr_roundtrip_v4/v6, C11_port_zero_empty), the 11-state status map and both kind tables by `decide` over the translator-generated tables (C11_status_map, C11_kind_table, C11_kind_files), unknown kind -> ValueError, exact parsing of every rendered tcp/udp/unix line incl. UNIX names with blanks and carriage returns (C11_inet_line, C11_unix_line, C11_unix_name_with_cr), owner lookup for every descriptor table (C11_owner), the resulting rows/per-process statements (C11_rows_exact, C11_per_process_only_own) and their NUMBER incl. any number of sockets sharing inode 0 (C11_rows_count, C11_rows_count_inode0); with every errno outcome of os.listdir/os.readlink explicit: a descriptor or process that cannot be inspected (ENOENT, ESRCH, EINVAL, ENAMETOOLONG, EACCES, EPERM) contributes no holder and never fails the system-wide call (C11_scan_never_fails, C11_scan_no_holder, C11_scan_process, C11_scan_process_error), other errnos propagate (proved: C11_scan_fatal_errno_propagates); on a Python that cannot format IPv6 addresses the rows needing an IPv6 text are left out and IPv4/UNIX rows are unaffected (C11_noipv6_rows, C11_noipv6_left_out, C11_noipv6_v4_unix_unaffected); the same for the per-process form (C11_noipv6_rows_process); WHICH rows are returned, exactly (C11_rows_which: one row per holder for UNIX, the FIRST holder in listing order for TCP/UDP — C11_inet_first_holder, a characterisation: the statement allows any holder), and from it the relation between the two forms (C11_system_rows_in_process for every world; C11_process_rows_in_system / C11_sys_proc_consistent when no TCP/UDP socket of the process is held by an earlier-listed one; the unrestricted equality is refuted on a forked listener, C11_sys_proc_shared_inet_counterexample); proved counterexamples for the two pre-fix behaviours (UNIX path with a blank, UNIX socket shared by two processes) and for narrowed `except` clauses (C11_scan_esrch_counterexample, C11_scan_eperm_counterexample). Tied to the code by translator facts (both kind tables, TCP_STATUSES, family/type constants, endianness, tuple-unpack indices, the path expression, the inode-merge statement, the exception classes / errno names of the `except` clauses of get_proc_inodes and get_all_inodes, the shape of the _Ipv6UnsupportedError try/except in decode_address and process_inet) feeding cfg_good, and by a differential run of the real front-end functions over a fake procfs with per-path fault injection into os.readlink/os.listdir, a patched socket.inet_ntop/has_ipv6, and every query made in several call modes (plain, oneshot fresh/warm, as_dict, process_iter object, second call, deprecated alias; system-wide while oneshot blocks are open); the system-wide and the per-process answers of the real code for one kind are also compared with each other (family consist).",
     "level_note": "Trusted: Lean kernel + {propext, Classical.choice, Quot.sound}; translator; correspondence harness (incl. the fault-injection shims); inet_ntop text formatting (libc); kernel renderers (validated against an independent printf renderer each run); text decoding modelled as identity on bytes; '\\n' inside UNIX names outside the domain; zombie / vanished-process handling of wrap_exceptions (C03) fixed to 'stat present, not a zombie'.",
     "technique": "Lean 4 round-trip proofs (render -> parse) by structural induction + simulation of the errno-explicit model by the error-free core + `decide` over generated tables + translator-fed proof obligation + differential correspondence over a fake procfs with fault injection, call modes and an exhaustive kind x (family,type) x mode sweep",
     "design_ref": "DESIGN.md §5 C11",
